@@ -278,6 +278,26 @@ class Hist:
 
 
 # --------------------------------------------------------------------------- branches for the porcelain wrappers
+_mem_refs_cls = None
+
+
+def use_memory_refs(h):
+    """Enumerated cases: keep the dictionary ref backend of MemoryRepo but with a subkeys() that
+    honours a base with a trailing slash (see use_disk_refs for why); a files backend per case costs
+    more than all other questions of the case together.  The random histories on disk use the real
+    DiskRefsContainer."""
+    global _mem_refs_cls
+    if _mem_refs_cls is None:
+        from dulwich.refs import DictRefsContainer
+
+        class SlashSafeDictRefs(DictRefsContainer):
+            def subkeys(self, base):
+                b = base.rstrip(b"/") + b"/"
+                return {k[len(b):] for k in self.allkeys() if k.startswith(b)}
+        _mem_refs_cls = SlashSafeDictRefs
+    h.repo.refs.__class__ = _mem_refs_cls
+
+
 def use_disk_refs(h, refs_dir):
     """Memory repositories get the files ref backend on a scratch directory (object store stays in
     memory): DictRefsContainer.as_dict(base=b"refs/heads/") -- what the branch listings use --
@@ -713,13 +733,14 @@ def run_dag(task):
                       dict(until=rng.choice(lv)), dict(since=rng.choice(lv), until=rng.choice(lv), topo=rng.randrange(2))][o]
                 qs.append(q_walk(h, set_of(im), set_of(em), **kw))
             # --- the porcelain wrappers: one branch per commit, HEAD at every commit in turn
-            if task.get("refs_dir") and rng.random() < plan.get("p_porcelain", 0.0):
-                use_disk_refs(h, os.path.join(task["refs_dir"], "refs-%d" % os.getpid()))
+            if rng.random() < plan.get("p_porcelain", 0.0):
+                use_memory_refs(h)
                 set_branches(h, range(1, n + 1))
                 for c in range(1, n + 1):
                     qs.append(q_pm(h, c))
                     qs.append(q_pc(h, c))
-                for _ in range(plan.get("n_porcelain", 2)):
+                # (these resolve their arguments through the configuration stack: ~0.5 ms each)
+                for _ in range(plan.get("n_porcelain", 1) if rng.random() < plan.get("p_porcelain_slow", 1.0) else 0):
                     a, b = rng.randint(1, n), rng.randint(1, n)
                     qs.append(q_pa(h, a, b))
                     s_ = set_of(rng.choice(multi))
